@@ -682,8 +682,10 @@ func (x *Exec) atomicOp(st *State, fn *ssa.Function, args []SVal, pos token.Pos,
 	key := args[0].Loc
 	short := x.shortName(key)
 	var vt types.Type
-	if pt, ok := fn.Signature.Params().At(0).Type().Underlying().(*types.Pointer); ok && fn.Signature.Recv() == nil {
-		vt = pt.Elem()
+	if fn.Signature.Recv() == nil && fn.Signature.Params().Len() > 0 {
+		if pt, ok := fn.Signature.Params().At(0).Type().Underlying().(*types.Pointer); ok {
+			vt = pt.Elem()
+		}
 	}
 	if fn.Signature.Recv() != nil {
 		// value type: from method results or args
